@@ -28,46 +28,84 @@ let zi = z_of_int
 let fbits (x : float) = Printf.sprintf "%Lx" (Int64.bits_of_float x)
 let float_of_zz z = Big.to_float (big_of_z z)
 
+(* per (types) cache of the partially applied model / spec functions: the compile-time part of
+   each operation (see "Staging" in Model.v) is evaluated once per pair of duration types *)
+type pc = {
+  a : dty; b : dty; n1 : z; d1 : z; n2 : z; d2 : z; w1 : z; w2 : z; pok : bool;
+  cast : (z -> z out) Lazy.t; floor : (z -> z out) Lazy.t; ceil : (z -> z out) Lazy.t;
+  round : (z -> z out) Lazy.t; conv : (z -> z out) Lazy.t; convertible : bool out Lazy.t;
+  plus : (z -> z -> z out) Lazy.t; minus : (z -> z -> z out) Lazy.t;
+  div : (z -> z -> z out) Lazy.t; modu : (z -> z -> z out) Lazy.t;
+  cmps : (z -> z -> bool out) list Lazy.t; absm : (z -> z out) Lazy.t;
+  cast_ok : (z -> bool) Lazy.t; floor_ok : (z -> bool) Lazy.t; ceil_ok : (z -> bool) Lazy.t;
+  round_ok : (z -> bool) Lazy.t; both_ok : (z -> z -> bool) Lazy.t; plus_ok : (z -> z -> bool) Lazy.t;
+  minus_ok : (z -> z -> bool) Lazy.t; div_ok : (z -> z -> bool) Lazy.t;
+  plus_s : (z -> z -> z) Lazy.t; minus_s : (z -> z -> z) Lazy.t; mod_s : (z -> z -> z) Lazy.t;
+  cf : (z * z) out Lazy.t;
+}
+let cache : (string, pc option) Hashtbl.t = Hashtbl.create 1024
+
+let make_pc n1r d1r w1 n2r d2r w2 =
+  match mk_dty w1 n1r d1r, mk_dty w2 n2r d2r with
+  | Val a, Val b ->
+    let n1 = a.pn and d1 = a.pd and n2 = b.pn and d2 = b.pd in
+    Some { a; b; n1; d1; n2; d2; w1; w2;
+           pok = period_ok n1 d1 && period_ok n2 d2 && rep_ok w1 && rep_ok w2;
+           cast = lazy (duration_cast_m a b); floor = lazy (floor_m a b); ceil = lazy (ceil_m a b);
+           round = lazy (round_m a b); conv = lazy (conv_m a b); convertible = lazy (convertible_m a b);
+           plus = lazy (plus_m a b); minus = lazy (minus_m a b); div = lazy (div_m a b); modu = lazy (mod_m a b);
+           cmps = lazy [ eq_m a b; ne_m a b; lt_m a b; le_m a b; gt_m a b; ge_m a b ];
+           absm = lazy (abs_m a);
+           cast_ok = lazy (cast_ok w1 n1 d1 w2 n2 d2); floor_ok = lazy (floor_ok w1 n1 d1 w2 n2 d2);
+           ceil_ok = lazy (ceil_ok w1 n1 d1 w2 n2 d2); round_ok = lazy (round_ok w1 n1 d1 w2 n2 d2);
+           both_ok = lazy (both_ok w1 n1 d1 w2 n2 d2); plus_ok = lazy (plus_ok w1 n1 d1 w2 n2 d2);
+           minus_ok = lazy (minus_ok w1 n1 d1 w2 n2 d2); div_ok = lazy (div_ok w1 n1 d1 w2 n2 d2);
+           plus_s = lazy (plus_spec n1 d1 n2 d2); minus_s = lazy (minus_spec n1 d1 n2 d2);
+           mod_s = lazy (mod_spec n1 d1 n2 d2);
+           cf = lazy (ratio_divide_m (n1, d1) (n2, d2)) }
+  | _, _ -> None
+
+let f = Lazy.force
+
 let run_case op t =
+  let key = String.concat " " (List.filteri (fun k _ -> k < 9) t.rest) in
   let _i = next_int t in
   let _j = next_int t in
   let _rc = next_int t in
   let n1r = next_z t in let d1r = next_z t in let w1 = next_z t in
   let n2r = next_z t in let d2r = next_z t in let w2 = next_z t in
-  match mk_dty w1 n1r d1r, mk_dty w2 n2r d2r with
-  | Val a, Val b ->
-    let n1 = a.pn and d1 = a.pd and n2 = b.pn and d2 = b.pd in
-    let pok = period_ok n1 d1 && period_ok n2 d2 && rep_ok w1 && rep_ok w2 in
+  let p = match Hashtbl.find_opt cache key with
+    | Some p -> p
+    | None -> let p = make_pc n1r d1r w1 n2r d2r w2 in Hashtbl.add cache key p; p in
+  match p with
+  | None -> ("illformed", "na")
+  | Some p ->
+    let n1 = p.n1 and d1 = p.d1 and n2 = p.n2 and d2 = p.d2 and pok = p.pok in
     let wc = Z.max w1 w2 in
     (match op with
      | "cast" | "tp_cast" ->
        let c = next_z t in
-       (leg1 (duration_cast_m a b c),
-        if pok && cast_ok w1 n1 d1 w2 n2 d2 c then okz (cast_spec n1 d1 n2 d2 c) else "na")
-     | "floor" | "tp_floor" ->
+       (leg1 (f p.cast c), if pok && f p.cast_ok c then okz (cast_spec n1 d1 n2 d2 c) else "na")
+     | "floor" ->
        let c = next_z t in
-       (leg1 (floor_m a b c),
-        if pok && floor_ok w1 n1 d1 w2 n2 d2 c then okz (floor_spec n1 d1 n2 d2 c) else "na")
-     | "ceil" | "tp_ceil" ->
+       (leg1 (f p.floor c), if pok && f p.floor_ok c then okz (floor_spec n1 d1 n2 d2 c) else "na")
+     | "ceil" ->
        let c = next_z t in
-       (leg1 (ceil_m a b c),
-        if pok && ceil_ok w1 n1 d1 w2 n2 d2 c then okz (ceil_spec n1 d1 n2 d2 c) else "na")
-     | "round" | "tp_round" ->
+       (leg1 (f p.ceil c), if pok && f p.ceil_ok c then okz (ceil_spec n1 d1 n2 d2 c) else "na")
+     | "round" ->
        let c = next_z t in
-       (leg1 (round_m a b c),
-        if pok && round_ok w1 n1 d1 w2 n2 d2 c then okz (round_spec n1 d1 n2 d2 c) else "na")
+       (leg1 (f p.round c), if pok && f p.round_ok c then okz (round_spec n1 d1 n2 d2 c) else "na")
      | "rnd4" | "tp_rnd4" ->
        let c = next_z t in
-       (legs [ tok_of (duration_cast_m a b c); tok_of (floor_m a b c); tok_of (ceil_m a b c);
-               tok_of (round_m a b c) ],
-        if pok && round_ok w1 n1 d1 w2 n2 d2 c && ceil_ok w1 n1 d1 w2 n2 d2 c then
+       (legs [ tok_of (f p.cast c); tok_of (f p.floor c); tok_of (f p.ceil c); tok_of (f p.round c) ],
+        if pok && f p.round_ok c && f p.ceil_ok c then
           legs (List.map str_of_z [ cast_spec n1 d1 n2 d2 c; floor_spec n1 d1 n2 d2 c;
                                     ceil_spec n1 d1 n2 d2 c; round_spec n1 d1 n2 d2 c ])
         else "na")
      | "conv" | "tp_conv" ->
        let c = next_z t in
-       let m = match convertible_m a b with
-         | Val true -> leg1 (conv_m a b c)
+       let m = match f p.convertible with
+         | Val true -> leg1 (f p.conv c)
          | Val false -> "illformed"
          | o -> tokb_of o in
        (* [time.duration.cons]: participates iff the source period is an exact multiple of the
@@ -76,37 +114,31 @@ let run_case op t =
        let s =
          if not pok then "na"
          else if not exact then "illformed"
-         else if cast_ok w1 n1 d1 w2 n2 d2 c then okz (cast_spec n1 d1 n2 d2 c) else "na" in
+         else if f p.cast_ok c then okz (cast_spec n1 d1 n2 d2 c) else "na" in
        (m, s)
      | "plus" ->
        let c1 = next_z t in let c2 = next_z t in
-       (leg1 (plus_m a b c1 c2),
-        if pok && plus_ok w1 n1 d1 w2 n2 d2 c1 c2 then okz (plus_spec n1 d1 n2 d2 c1 c2) else "na")
+       (leg1 (f p.plus c1 c2), if pok && f p.plus_ok c1 c2 then okz (f p.plus_s c1 c2) else "na")
      | "minus" ->
        let c1 = next_z t in let c2 = next_z t in
-       (leg1 (minus_m a b c1 c2),
-        if pok && minus_ok w1 n1 d1 w2 n2 d2 c1 c2 then okz (minus_spec n1 d1 n2 d2 c1 c2) else "na")
+       (leg1 (f p.minus c1 c2), if pok && f p.minus_ok c1 c2 then okz (f p.minus_s c1 c2) else "na")
      | "div" ->
        let c1 = next_z t in let c2 = next_z t in
-       (leg1 (div_m a b c1 c2),
-        if pok && div_ok w1 n1 d1 w2 n2 d2 c1 c2 then okz (div_spec n1 d1 n2 d2 c1 c2) else "na")
+       (leg1 (f p.div c1 c2), if pok && f p.div_ok c1 c2 then okz (div_spec n1 d1 n2 d2 c1 c2) else "na")
      | "mod" ->
        let c1 = next_z t in let c2 = next_z t in
-       (leg1 (mod_m a b c1 c2),
-        if pok && div_ok w1 n1 d1 w2 n2 d2 c1 c2 then okz (mod_spec n1 d1 n2 d2 c1 c2) else "na")
+       (leg1 (f p.modu c1 c2), if pok && f p.div_ok c1 c2 then okz (f p.mod_s c1 c2) else "na")
      | "cmp" | "tp_cmp" ->
        let c1 = next_z t in let c2 = next_z t in
-       let fs = if op = "cmp" then [ eq_m; ne_m; lt_m; le_m; gt_m; ge_m ]
-         else [ tp_eq_m; ne_m; tp_lt_m; tp_le_m; tp_gt_m; tp_ge_m ] in
        let e = eq_spec n1 d1 n2 d2 c1 c2 and l = lt_spec n1 d1 n2 d2 c1 c2 in
-       (legs (List.map (fun f -> tokb_of (f a b c1 c2)) fs),
-        if pok && both_ok w1 n1 d1 w2 n2 d2 c1 c2 then
+       (legs (List.map (fun g -> tokb_of (g c1 c2)) (f p.cmps)),
+        if pok && f p.both_ok c1 c2 then
           legs (List.map b2s [ e; not e; l; l || e; not (l || e); not l ])
         else "na")
      | "ctype" ->
-       ((match common_m a b with
+       ((match common_m p.a p.b with
            | Val t -> legs [ str_of_z t.rw; str_of_z t.pn; str_of_z t.pd ]
-           | o -> (match o with Ub _ -> "ub" | IllFormed -> "illformed" | _ -> "fuel")),
+           | Ub _ -> "ub" | IllFormed -> "illformed" | Fuel -> "fuel"),
         if pok && common_ok n1 d1 n2 d2 then legs [ str_of_z wc; str_of_z (cnum n1 n2); str_of_z (cden d1 d2) ]
         else "na")
      | "period" ->
@@ -140,7 +172,7 @@ let run_case op t =
         if rep_ok w1 && List.for_all (fits w1) (c :: x :: ss) then legs (List.map str_of_z ss) else "na")
      | "abs" ->
        let c = next_z t in
-       (leg1 (abs_m a c), if pok && abs_ok w1 c then okz (abs_spec c) else "na")
+       (leg1 (f p.absm c), if pok && abs_ok w1 c then okz (abs_spec c) else "na")
      | "limits" ->
        let lo = if Z.eqb w1 (zi 32) then min32 else min64 in
        let hi = if Z.eqb w1 (zi 32) then max32 else max64 in
@@ -151,30 +183,20 @@ let run_case op t =
         legs (List.concat (List.map (fun ((_, n), d) -> [ str_of_z n; str_of_z d; "1"; "1" ]) typedefs_spec)))
      | "typedef_bits" ->
        (legs (List.map (fun ((w, _), _) -> str_of_z w) typedefs_m), "na")
-     (* ---- floating-point representations: double mirror, tested only *)
-     | "fcast_if" ->
-       (* duration_cast<duration<double,P2>>(duration<int64,P1>{c}) *)
+     (* ---- floating-point target representation: double mirror of duration_cast_impl (CR = double)
+        and of the converting constructor (same expression), tested only *)
+     | "fcast_if" | "fconv_if" ->
        let c = next_z t in
-       (match ratio_divide_m (n1, d1) (n2, d2) with
+       (match f p.cf with
         | Val (cn, cd) ->
           let x = float_of_zz c and fn = float_of_zz cn and fd = float_of_zz cd in
           let one = zi 1 in
-          let v = if Z.eqb cn one then (if Z.eqb cd one then x else x /. fd)
-            else if Z.eqb cd one then x *. fn else x *. fn /. fd in
-          (join [ "ok"; fbits v ], "na")
-        | _ -> ("illformed", "na"))
-     | "fconv_if" ->
-       (* duration<double,P2>(duration<int64,P1>{c}): always participates, == duration_cast *)
-       let c = next_z t in
-       (match ratio_divide_m (n1, d1) (n2, d2) with
-        | Val (cn, cd) ->
-          let x = float_of_zz c and fn = float_of_zz cn and fd = float_of_zz cd in
-          let one = zi 1 in
-          let v = if Z.eqb cn one then (if Z.eqb cd one then x else x /. fd)
+          let v =
+            if op = "fconv_if" then x *. fn /. fd
+            else if Z.eqb cn one then (if Z.eqb cd one then x else x /. fd)
             else if Z.eqb cd one then x *. fn else x *. fn /. fd in
           (join [ "ok"; fbits v ], "na")
         | _ -> ("illformed", "na"))
      | _ -> raise Not_found)
-  | _, _ -> ("illformed", "na")
 
 let () = main run_case
